@@ -325,6 +325,52 @@ pub fn run(ctx: &Ctx) -> Report {
         st = st.merge(st1b);
     }
 
+    // (1c) fractions of a second never carry into the date: timestamps on the last second of a UTC day (and of the
+    //      minute before a round one) with fractions of 1 .. 13 nines, nine nines followed by each digit, a lone 5 and
+    //      499999999 5 -- the UTC date is that of the written second; credential dated with it (accepted) or with the
+    //      next day (refused)
+    {
+        let mut fracs: Vec<String> = (1..=13).map(|k| "9".repeat(k)).collect();
+        for d in 0..10 {
+            fracs.push(format!("999999999{}", d));
+        }
+        fracs.extend(["5".to_string(), "4999999995".to_string(), "99999999949".to_string(), "0000000009".to_string()]);
+        let n1c = (fracs.len() * 2 * 2 * 2) as u64;
+        let base1c = total1 + total2 + 45_000_000;
+        let st1c = par_sweep(n1c, |i, st| {
+            let mut x = i as usize;
+            let carrier = if x % 2 == 0 { Carrier::Header } else { Carrier::Query };
+            x /= 2;
+            let same_day = x % 2 == 0;
+            x /= 2;
+            let sep = if x % 2 == 0 { '.' } else { ',' };
+            x /= 2;
+            let frac = &fracs[x];
+            let inst = Instant::from_civil(2015, 8, 30, 23, 59, 59, 0);
+            let text = format!("20150830T235959{}{}Z", sep, frac);
+            let date = if same_day { "20150830" } else { "20150831" };
+            let mut plan = e2e::base_plan(carrier);
+            plan.instant = inst;
+            plan.date_text = text.clone();
+            plan.scope = format!("{}/us-east-1/service/aws4_request", date);
+            plan.key = refmodel::hmac::chain(e2e::SECRET.as_bytes(), date, b"us-east-1", b"service").ksigning;
+            let case = Case { wire: WireReq::from_wire(&build(&plan).wire), cfg: Cfg::basic(Instant::from_civil(2015, 8, 31, 0, 0, 5, 0)), prov: ProvSpec::standard() };
+            let before = st.violations.len();
+            let j = e2e::judge_into(base1c + i, &case, st);
+            if st.violations.len() > before {
+                if let Some(v) = st.violations.last_mut() {
+                    v.what = format!("fraction-does-not-carry({}; credential dated {}):{}", text, date, v.what);
+                }
+            }
+            if !j.unspecified && j.reference.accepted() != same_day {
+                crate::core::machinery_error(&format!("C03 (1c): reference verdict for {} / {} is {:?}", text, date, j.reference.error));
+            }
+            st.state(&(j.reference.stage as u8, j.reference.error.map(|k| k.name()), "fraction-carry"));
+            st.nontrivial(&(text, same_day, carrier, "fraction-carry"));
+        });
+        st = st.merge(st1c);
+    }
+
     // (4b) the provider decides: a key store indexed by the exact (access key, session token) pair that holds only
     //      some of the pairs and answers every other pair with an error; the request is refused with that error and the
     //      provider is asked once, for the pair of the request (no second question with another key or token)
@@ -467,7 +513,7 @@ pub fn run(ctx: &Ctx) -> Report {
     Report {
         stats: st,
         rule: format!(
-            "(1) five-part credentials: 12 date variants (exact, -1 day, +1 day, 7 digits, trailing space, extended, empty, written-local date, and the numerically equal spellings +D, 0D, 00D, D.0) x 12 near-misses each of region, service and terminator (exact, prefix, suffix, x+v, v+x, UPPER, empty, look-alike, trailing blank, leading blank, lower, case-swapped) x {} server (region, service) pairs (incl. a mixed-case one, empty strings, non-ASCII and 300-character values) x {} request instants (incl. 23:59:59Z, 00:00:00Z and offsets whose UTC date differs from the written date) x signing mode A (correctly signed under the credential's own scope; provider returns that key unconditionally) / B (signed under the server's scope) x carrier; (1b) timestamps ten minutes (or thirty seconds) from local midnight written with 12 offsets of either sign from 00:01 to 14:00 (sub-hour ones included), basic and extended, so that the UTC date differs from the written date: the credential dated with the UTC date is accepted, the one dated with the written date refused; (2) credentials of 1..8 parts, with leading/trailing/double slashes, empty access key and no slash at all, five-part credentials in which the slash between two adjacent elements is moved by one or two characters (their concatenation unchanged), and credentials whose correct five-part text ends exactly at / next to lengths 64 .. 65536 followed by a sixth part or a longer terminator; (3) every sequence of 1..3 validations on one thread over 50 symbols (5 server configurations, one differing from another in letter case only, x credential scoped for any of the 5 x carrier): each judged as if it were alone; (4) 9 access keys (case variant, inner / trailing blank, literal percent signs, non-ASCII, one character) x 10 session tokens (none, reserved characters, literal percent signs, inner blanks, commas, non-ASCII, 4 kB, case variant, trailing blank) x carrier x token signed or not: the provider is asked for exactly that access key and token; (4b) 6 access keys (incl. the AKIA / ASIA / AROA / AIDA prefixes of real key ids) x 3 tokens (none, a stale one, empty) x a key store indexed by the exact (key, token) pair holding each of the 16 subsets of (key alone, key with this token, key with another token, another key with this token) x every error it can answer an unknown pair with (all SignatureError kinds, an io::Error, a string) x 8 identities attached to its answers x carrier: refused with that error unless the store holds the request's own pair, and the store is asked exactly once; (4c) the server configured for each of 62 AWS region codes / pseudo-regions (and each of 70 service signing names) x the credential scoped for each of them x carrier. Oracle: reference verifier (Ok iff all five parts right; arity => IncompleteSignature/400; other mismatch => SignatureDoesNotMatch/403 also in mode A; provider asked iff scope fully correct, with (access key, token, UTC date, server region, server service)). states = distinct (stage, kind, provider ask)",
+            "(1) five-part credentials: 12 date variants (exact, -1 day, +1 day, 7 digits, trailing space, extended, empty, written-local date, and the numerically equal spellings +D, 0D, 00D, D.0) x 12 near-misses each of region, service and terminator (exact, prefix, suffix, x+v, v+x, UPPER, empty, look-alike, trailing blank, leading blank, lower, case-swapped) x {} server (region, service) pairs (incl. a mixed-case one, empty strings, non-ASCII and 300-character values) x {} request instants (incl. 23:59:59Z, 00:00:00Z and offsets whose UTC date differs from the written date) x signing mode A (correctly signed under the credential's own scope; provider returns that key unconditionally) / B (signed under the server's scope) x carrier; (1b) timestamps ten minutes (or thirty seconds) from local midnight written with 12 offsets of either sign from 00:01 to 14:00 (sub-hour ones included), basic and extended, so that the UTC date differs from the written date: the credential dated with the UTC date is accepted, the one dated with the written date refused; (1c) timestamps on the last second of a UTC day with fractions of 1..13 nines, nine nines followed by each digit, and other fractions that a rounding reader would carry over: the date is that of the written second; (2) credentials of 1..8 parts, with leading/trailing/double slashes, empty access key and no slash at all, five-part credentials in which the slash between two adjacent elements is moved by one or two characters (their concatenation unchanged), and credentials whose correct five-part text ends exactly at / next to lengths 64 .. 65536 followed by a sixth part or a longer terminator; (3) every sequence of 1..3 validations on one thread over 50 symbols (5 server configurations, one differing from another in letter case only, x credential scoped for any of the 5 x carrier): each judged as if it were alone; (4) 9 access keys (case variant, inner / trailing blank, literal percent signs, non-ASCII, one character) x 10 session tokens (none, reserved characters, literal percent signs, inner blanks, commas, non-ASCII, 4 kB, case variant, trailing blank) x carrier x token signed or not: the provider is asked for exactly that access key and token; (4b) 6 access keys (incl. the AKIA / ASIA / AROA / AIDA prefixes of real key ids) x 3 tokens (none, a stale one, empty) x a key store indexed by the exact (key, token) pair holding each of the 16 subsets of (key alone, key with this token, key with another token, another key with this token) x every error it can answer an unknown pair with (all SignatureError kinds, an io::Error, a string) x 8 identities attached to its answers x carrier: refused with that error unless the store holds the request's own pair, and the store is asked exactly once; (4c) the server configured for each of 62 AWS region codes / pseudo-regions (and each of 70 service signing names) x the credential scoped for each of them x carrier. Oracle: reference verifier (Ok iff all five parts right; arity => IncompleteSignature/400; other mismatch => SignatureDoesNotMatch/403 also in mode A; provider asked iff scope fully correct, with (access key, token, UTC date, server region, server service)). states = distinct (stage, kind, provider ask)",
             n_serv, n_inst
         ),
         bounds: json!({"servers": n_serv, "instants": n_inst, "cases": total1 + total2}),
